@@ -501,10 +501,14 @@ func (gen *Generator) GenerateLet(name string, args []Sexp) error {
 	gen.AddInstruction(AddScopeInstr{Name: "runtime " + name})
 	gen.scopes++
 
+	// the initialisers are not in tail position; only the body is.
+	oldtail := gen.Tail
+	gen.Tail = false
 	if name == "letseq" {
 		for i, rs := range rstatements {
 			err := gen.Generate(rs)
 			if err != nil {
+				gen.Tail = oldtail
 				return err
 			}
 			gen.AddInstruction(PopStackPutEnvInstr{lstatements[i]})
@@ -513,6 +517,7 @@ func (gen *Generator) GenerateLet(name string, args []Sexp) error {
 		for _, rs := range rstatements {
 			err := gen.Generate(rs)
 			if err != nil {
+				gen.Tail = oldtail
 				return err
 			}
 		}
@@ -520,6 +525,7 @@ func (gen *Generator) GenerateLet(name string, args []Sexp) error {
 			gen.AddInstruction(PopStackPutEnvInstr{lstatements[i]})
 		}
 	}
+	gen.Tail = oldtail
 	err := gen.GenerateBegin(args[1:])
 	if err != nil {
 		return err
@@ -534,7 +540,11 @@ func (gen *Generator) GenerateAssert(args []Sexp) error {
 	if len(args) != 1 {
 		return WrongNargs
 	}
+	// the asserted expression is not in tail position
+	oldtail := gen.Tail
+	gen.Tail = false
 	err := gen.Generate(args[0])
+	gen.Tail = oldtail
 	if err != nil {
 		return err
 	}
@@ -826,7 +836,11 @@ func (gen *Generator) GenerateCall(expr *SexpPair) error {
 }
 
 func (gen *Generator) GenerateArray(arr *SexpArray) error {
+	// the elements are not in tail position
+	oldtail := gen.Tail
+	gen.Tail = false
 	err := gen.GenerateAll(arr.Val)
+	gen.Tail = oldtail
 	if err != nil {
 		return err
 	}
